@@ -2,6 +2,7 @@ package ecs
 
 import (
 	"fmt"
+	"math"
 	"reflect"
 	"unsafe"
 
@@ -205,6 +206,10 @@ func (w *World) newEntitiesNoNotify(count int, targetID ID, hasTarget bool, targ
 	if count < 1 {
 		panic("can only create a positive number of entities")
 	}
+	if uint64(count) > math.MaxUint32 {
+		// The conversion to uint32 would wrap around.
+		panic("can't create more than MaxUint32 entities")
+	}
 
 	if !target.IsZero() && !w.entityPool.Alive(target) {
 		panic("can't make a dead entity a relation target")
@@ -233,6 +238,10 @@ func (w *World) newEntitiesWithNoNotify(count int, targetID ID, hasTarget bool, 
 
 	if count < 1 {
 		panic("can only create a positive number of entities")
+	}
+	if uint64(count) > math.MaxUint32 {
+		// The conversion to uint32 would wrap around.
+		panic("can't create more than MaxUint32 entities")
 	}
 
 	if !target.IsZero() && !w.entityPool.Alive(target) {
